@@ -115,7 +115,21 @@ impl Oplog {
     }
 
     pub fn last_op_time() -> u64 {
-        let mut f = get_log_file_read_mode(&Oplog::get_op_log_file_name());
+        let f = get_log_file_read_mode(&Oplog::get_op_log_file_name());
+        let total_size = f.metadata().unwrap().len();
+        if total_size < OP_RECORD_SIZE as u64 {
+            // The current file is empty right after a rotation, the newest record is in the newest rotated file
+            return match get_op_log_entries_by_creation_date().first() {
+                Some(entry) => Oplog::last_op_time_of_file(get_log_file_read_mode(
+                    &entry.path().to_str().unwrap().to_string(),
+                )),
+                None => 0,
+            };
+        }
+        Oplog::last_op_time_of_file(f)
+    }
+
+    fn last_op_time_of_file(mut f: File) -> u64 {
         let total_size = f.metadata().unwrap().len();
         let size_as_u64 = OP_RECORD_SIZE as u64;
         // if the file is empty return 0 to avoid  attempt to subtract with overflow error
